@@ -65,20 +65,29 @@ def classify(ftype, value, tag=None):
     if t in UNCHECKED or t not in KNOWN:
         return "F"
     if t == "INT":
-        return "A" if _INT.match(v) else "R"
+        if not _INT.match(v):
+            return "R"
+        return "A" if len(v) <= 300 else "F"  # FIX puts no bound on the digits; beyond any machine integer it is FREE
     if t in ("SEQNUM", "NUMINGROUP"):
         if not _INT.match(v):
             return "R"
-        n = int(v)
+        # sign / zero-ness from the digits (int() refuses more than 4300 digits)
+        digits = v.lstrip("-")
+        n = 0 if not digits.strip("0") else (-1 if v.startswith("-") else 1)
         if n > 0:
-            return "A" if _UINT.match(v) else "R"
+            if not _UINT.match(v):
+                return "R"
+            return "A" if len(v) <= 300 else "F"
         if n == 0 and str(tag) == "16":
             return "A" if v == "0" else "F"
         return "R"
     if t == "DAYOFMONTH":
         if not _INT.match(v):
             return "R"
-        return "A" if (_UINT.match(v) and 1 <= int(v) <= 31) else "R"
+        sig = v.lstrip("0")
+        if _UINT.match(v) and len(sig) <= 2 and sig and 1 <= int(sig) <= 31:
+            return "A" if len(v) <= 300 else "F"  # thousands of leading zeros: FREE
+        return "R"
     if t in FLOATS:
         if _FLOAT.match(v):
             # FIX asks implementations for 15 significant digits; beyond binary64's range is FREE
